@@ -8,7 +8,7 @@ import sys
 sys.path.insert(0, os.path.join(os.environ.get('VERIF_REPO', '/repo'), 'src'))
 
 LEVELS = {
-    'C01': 'exploration', 'C02': 'exploration', 'C15': 'exploration', 'C07': 'fault_enumeration',
+    'C01': 'exploration', 'C02': 'exploration', 'C14': 'exploration', 'C15': 'exploration', 'C07': 'fault_enumeration',
 }
 
 
